@@ -234,7 +234,7 @@ class CNode(object):
 
 STMT_KINDS = ("CompoundStmt", "IfStmt", "WhileStmt", "ForStmt", "SwitchStmt", "CaseStmt", "DefaultStmt",
               "BreakStmt", "ReturnStmt", "DeclStmt", "NullStmt")
-UNSUPPORTED = ("GotoStmt", "LabelStmt", "DoStmt", "ContinueStmt", "IndirectGotoStmt")
+UNSUPPORTED = ("IndirectGotoStmt",)
 
 
 class TU(object):
